@@ -397,6 +397,9 @@ def ev_filter(e, env):
         outer = None
     if kind(outer) == "number":
         raise Undecided("filter expression that is a number outside the item scope")
+    if outer is not None and not isinstance(outer, bool):
+        # e.g. `[][[100]]`: a list / string / context as filter expression is outside the decided fragment whatever the list holds
+        raise Undecided("filter expression that is neither boolean nor null outside the item scope")
     kept = []
     for item in v:
         frames = list(env)
